@@ -570,6 +570,11 @@ class CompilerPassCheckConstValue(CompilerPass):
         if left._ndata.is_constant and right._ndata.is_constant:
             _, func = get_binop_instruction(node.op)
             val = func(left._ndata.constant_value, right._ndata.constant_value)
+            if isinstance(val, complex):
+                # (-8) ** 0.5: Python answers with a complex number where the chip's pow gives NaN
+                raise CompilerError(
+                    "The result of this constant expression is not a real number", node
+                )
             data.set_constant(val)
             # self._visit_node(node.parent)
         else:
